@@ -20,6 +20,10 @@ Inductive case :=
 | CVote (id : N) (present wellformed : bool) (r u : Z) (vs : list Z) (ok : bool)
 | CRetV (id : N) (fee r u : Z) (others : list Z) (value : Z) (ok : bool)
 | CVSeq (id : N) (fee : Z) (ops : list vop) (obs : list (Z * Z))
+  (* block-driven history of one producer through State.ProcessBlock: per block the
+     operations it means for the account (penalty, return, deposits, release of the
+     lock as observed) and (total, lock, penalty) observed after it *)
+| CDBlocks (id : N) (init : Z * Z * Z) (blocks : list (list dop * (Z * Z * Z)))
   (* block-driven history of one stake address through State.ProcessBlock: per
      block the operations the block means for the address (its transaction, then
      the votes that expire in this block) and (rights, used) observed after it *)
@@ -41,6 +45,12 @@ Fixpoint vseq (fee : Z) (s : stake) (ops : list vop) (obs : list (Z * Z)) : bool
   | [], [] => true
   | o :: ops', t :: obs' => let s' := vstep true fee s o in stake_eqb s' t && vseq fee s' ops' obs'
   | _, _ => false
+  end.
+
+Fixpoint dblocks (a : acct) (bs : list (list dop * (Z * Z * Z))) : bool :=
+  match bs with
+  | [] => true
+  | (ops, t) :: r => let a' := drun a ops in acct_eqb a' t && dblocks a' r
   end.
 
 Fixpoint vblocks (fee : Z) (s : stake) (bs : list (list vop * (Z * Z))) : bool :=
@@ -69,6 +79,7 @@ Definition check (c : case) : option N :=
   | CRetV id fee r u others value ok =>
       if Bool.eqb (retvotes_check fee (mk_stake (r, u)) others value) ok then None else Some id
   | CVSeq id fee ops obs => if vseq fee (mk_stake (0, 0)) ops obs then None else Some id
+  | CDBlocks id init bs => if dblocks (mk_acct init) bs then None else Some id
   | CVBlocks id fee bs => if vblocks fee (mk_stake (0, 0)) bs then None else Some id
   | CLBlocks id fee bs => if lblocks fee {| vs_rights := 0; vs_used := 0; vs_votes := [] |} bs then None else Some id
   end.
